@@ -111,6 +111,9 @@ func (propC10) GenAt(index int, seed uint64, tier string) *Case {
 	g.universe()
 	rec := &Recipe{Paths: g.paths}
 	rec.File = genFileSpec(g, r, true)
+	if r.Chance(0.04) {
+		rec.File = FileSpec{Ctor: "name", Name: r.Pick([]string{"my-pkg", "2fa", "pkg name", ""})} // not an identifier
+	}
 	rec.Ops = append(rec.Ops, genConfigOps(g, r, true)...)
 	for i := r.Range(1, 3); i > 0; i-- {
 		rec.Ops = append(rec.Ops, Op{K: "add", Node: g.decl()})
@@ -144,12 +147,15 @@ func (propC10) GenAt(index int, seed uint64, tier string) *Case {
 		}
 		return &WriterPlan{FailAt: k, Kind: r.Pick([]string{"err", "short"})}
 	}
-	for i := r.Range(1, 3); i > 0; i-- {
+	for i := r.Range(1, 4); i > 0; i-- {
 		switch x := r.Intn(10); {
 		case x < 3:
 			rec.Ops = append(rec.Ops, Op{K: "render", W: wplan()})
 		case x < 6:
 			f := &FSPlan{Target: r.Pick(c10Targets), Part: r.Pick2(0, 0, 3, 10, 50)}
+			if r.Chance(0.3) {
+				f.Target = r.Pick([]string{"again", "again-mkparent", "again-deleted", "again-scribbled"})
+			}
 			if r.Chance(0.45) {
 				f.Inject = r.Pick([]string{"eacces", "enospc", "eio"})
 				f.At = r.Range(1, 2)
